@@ -85,7 +85,9 @@ def draw_game(st, like=None):
         prob[np.ix_(r_sat, c_sat)] *= w / sat_mass
         prob[np.ix_(r_fr, c_fr)] *= (1 - w) / fr_mass
     reps = st.weighted([(1, 6), (2, 3), (3, 2)])
-    return prob, pred, reps, {"shape": [q0, q1], "prob_kind": qk, "reps": reps}
+    dt = st.weighted([("int64", 4), ("bool", 1), ("float64", 1), ("int8", 1)])
+    pred = pred.astype({"int64": np.int64, "bool": bool, "float64": float, "int8": np.int8}[dt])
+    return prob, pred, reps, {"shape": [q0, q1], "prob_kind": qk, "reps": reps, "pred_dtype": dt}
 
 
 def run(cs, tier, run_index):
